@@ -171,8 +171,24 @@ def _may_mutate(c: ast.Call) -> bool:
     return True
 
 
+def _is_registry_alias(val: ast.expr) -> bool:
+    """``registry = AwareASTNode._nodes``: another name for a module / class level table.  Using the table through the
+    alias or through the original expression is the same thing; only rebinding the table itself would differ."""
+    d = dotted(val)
+    return d is not None and d.split(".")[-1] in REGISTRY_NAMES and (d.split(".")[0][:1].isupper() or "." not in d)
+
+
 def _clobbers(stmts: list[ast.stmt], rhs: ast.expr) -> bool:
     """May any of the statements change what ``rhs`` reads?"""
+    if _is_registry_alias(rhs):
+        full = norm(rhs)
+        for st in stmts:
+            for n in ast.walk(st):
+                if isinstance(n, (ast.Name, ast.Attribute)) and isinstance(n.ctx, (ast.Store, ast.Del)) and (norm(n) == full or full.startswith(norm(n) + ".")):
+                    return True
+                if isinstance(n, ast.Call) and (dotted(n.func) or "") in ("setattr", "delattr", "object.__setattr__") and n.args and full.startswith(norm(n.args[0]) + "."):
+                    return True
+        return False
     rtxt = norm(rhs)
     reads_registry = any(r in rtxt for r in REGISTRY_NAMES)
     read_names = {n.id for n in ast.walk(rhs) if isinstance(n, ast.Name)}
@@ -233,7 +249,7 @@ def inline_locals(fn: ast.FunctionDef, keep: set[str] | None = None) -> ast.Func
                         tgt, val = st.target.id, st.value
                     if tgt is None or tgt in keep or tgt in params or counts.get(tgt, 0) != 1 or tgt.startswith("__"):
                         continue
-                    if not is_pure_expr(val) or _is_mutated(fn, tgt):
+                    if not is_pure_expr(val) or (_is_mutated(fn, tgt) and not _is_registry_alias(val)):
                         continue
                     if _is_container_ctor(val) and _is_empty_container(val):
                         continue  # an accumulator, not an alias
@@ -824,6 +840,15 @@ def lower(fn: ast.FunctionDef, tuples: bool = True, ifexp: bool = True) -> ast.F
                 t2 = _replace_node(st.test, w, ast.copy_location(ast.Name(id=w.target.id, ctx=ast.Load()), w))
                 brk = ast.copy_location(ast.If(test=ast.UnaryOp(op=ast.Not(), operand=t2), body=[ast.copy_location(ast.Break(), st)], orelse=[]), st)
                 new = [ast.copy_location(ast.While(test=ast.Constant(value=True), body=[pre, brk] + st.body, orelse=[]), st)]
+            elif tuples and isinstance(st, ast.For) and not st.orelse and isinstance(st.iter, (ast.Tuple, ast.List)) and 0 < len(st.iter.elts) <= 8 \
+                    and all(isinstance(e, ast.Constant) for e in st.iter.elts) and isinstance(st.target, ast.Name) \
+                    and not any(isinstance(n, (ast.Break, ast.Continue)) for b in st.body for n in ast.walk(b)) \
+                    and not any(isinstance(n, ast.Name) and n.id == st.target.id and isinstance(n.ctx, ast.Store) for b in st.body for n in ast.walk(b)):
+                # a loop over a literal tuple of constants is its unrolling
+                new = []
+                for e in st.iter.elts:
+                    for b in st.body:
+                        new.append(ast.fix_missing_locations(_Subst({st.target.id: e}).visit(copy.deepcopy(b))))
             elif tuples and isinstance(st, ast.Expr) and isinstance(st.value, ast.Call) and isinstance(st.value.func, ast.Attribute) \
                     and st.value.func.attr == "setdefault" and len(st.value.args) == 2 and not st.value.keywords \
                     and all(is_pure_expr(x) for x in st.value.args) and is_pure_expr(st.value.func.value):
